@@ -140,6 +140,9 @@ PROBES = [
     ("atlas", q(A_MYJETS, [COLL_PRIVATE_KEY])), ("cms_aod", q(C_MYMU, [CMS_COLL_PRIVATE_KEY])), ("cms_aod", q(C_MYMU, [CMS_COLL])), ("cms_miniaod", q(C_MYMU, [MINI_COLL])),
     ("cms_miniaod", q("Select(DS, lambda e: e.RecoMuons('x').Select(lambda m: m.isPFMuon()))", [MINI_RECO_COLL])),
     ("cms_miniaod", q("Select(DS, lambda e: e.RecoMuons('x').Select(lambda m: m.globalTrack().pt()))", [MINI_RECO_COLL])),
+    # a parameter spelled like the names func_adl invents from a process-wide counter (two digits: the counter gets there after a few translations)
+    ("atlas", q("Select(DS, lambda e: e.Jets('AntiKt4').Select(lambda arg_12: arg_12.getAttributeVectorFloat('w').Select(lambda t: t * 2).Select(lambda p: p + arg_12.eta())))")),
+    ("atlas", q("Select(DS, lambda e: e.Jets('AntiKt4').Select(lambda arg_25: arg_25.getAttributeVectorFloat('w').Select(lambda t: t * 2).Select(lambda p: p + arg_25.eta())))")),
     ("atlas", q(A_PT, [SCRIPT2])),  # depends on s1 that only an earlier query sent: must fail
     ("atlas", q(A_XMD, [XMD]) + " "),  # trailing blank = do NOT register the extended metadata type first: must fail in a fresh process
 ]
